@@ -180,4 +180,100 @@ theorem illtyped_rejected_before_rows (stmts : List Stmt) (e : TypeErr)
   have hc := illtyped_no_rows_compiled numOf g stmts e h
   exact ⟨hc, illtyped_no_rows numOf g stmts e h, fun rows hr => by rw [hc] at hr; cases hr⟩
 
+/-! ### non-vacuity: a 4-step traversal with a mark and a select, on a concrete graph -/
+
+/-- `V().as("a").outE("k").select("a")` -/
+def exProg : List Stmt := [.V [], .as_ "a", .outE ["k"], .select ["a"]]
+
+theorem validFieldName_a : validFieldName "a" = true := by
+  have h1 : ("a".startsWith "_") = false := by simp
+  have h2 : ("a".startsWith "-") = false := by simp
+  have h3 : Path.reserved.contains "a" = false := by decide
+  have h4 : "a".toList = ['a'] := by rfl
+  have h5 : forbiddenChars.contains 'a' = false := by decide
+  simp only [validFieldName, h1, h2, h3, h4, List.any_cons, List.any_nil, h5]
+  decide
+
+def τV : TState := ⟨.vertex, []⟩
+def τVa : TState := ⟨.vertex, [("a", .vertex)]⟩
+def τEa : TState := ⟨.edge, [("a", .vertex)]⟩
+
+theorem ex_t1 : typeStep {} (.V []) = .ok τV := rfl
+theorem ex_t2 : typeStep τV (.as_ "a") = .ok τVa := by
+  have h1 : ("a" == "") = false := by decide
+  have h2 : ("a" == currentNamespace) = false := by decide
+  simp [typeStep, τV, τVa, validFieldName_a, h1, h2, MarkTypes.set]
+theorem ex_t3 : typeStep τVa (.outE ["k"]) = .ok τEa := rfl
+theorem ex_t4 : typeStep τEa (.select ["a"]) = .ok τVa := by
+  have : MarkTypes.get [("a", DataType.vertex)] "a" = .vertex := by decide
+  simp [typeStep, needElement, τEa, τVa, this]
+
+/-- the program is accepted, with final type vertex and mark `a : vertex` -/
+theorem exProg_typed : typeCheck exProg = .ok τVa := by
+  simp only [exProg, typeCheck, validate, typeFold, ex_t1, ex_t2, ex_t3, ex_t4]
+
+theorem exProg_side : PresSide exProg :=
+  ⟨by decide, fun s hs => by
+    simp only [exProg, List.mem_cons, List.not_mem_nil, or_false] at hs
+    rcases hs with rfl | rfl | rfl | rfl <;> trivial⟩
+
+theorem exProg_static : alongTyping StaticOK {} exProg := by
+  have hm : (MarkTypes.get τEa.marks "a").isElement = true := by decide
+  simp only [exProg, alongTyping, ex_t1, ex_t2, ex_t3, ex_t4, and_true]
+  refine ⟨?_, ?_, ?_, ?_⟩
+  · exact staticOK_of_norefs rfl rfl rfl (by decide)
+  · exact staticOK_of_norefs rfl rfl rfl (by decide)
+  · exact staticOK_of_norefs rfl rfl rfl (by decide)
+  · refine ⟨rfl, fun p hp => (by cases hp), fun m h => ?_, fun h => (by cases h)⟩
+    simp only [stmtMarks, List.mem_singleton] at h
+    subst h; exact hm
+
+theorem exProg_eval : evalFrom numOf gEx {} [Traveler.seed] exProg =
+    evalStepT numOf gEx .edge (.select ["a"]) (evalStepT numOf gEx .vertex (.outE ["k"])
+      (evalStepT numOf gEx .vertex (.as_ "a") (evalStepT numOf gEx .noData (.V []) [Traveler.seed]))) := by
+  simp only [exProg, evalFrom, ex_t1, ex_t2, ex_t3, ex_t4]
+  rfl
+
+/-- NON-VACUITY: on `gEx` the program `exProg` satisfies every hypothesis of the theorems above
+    (graph, side conditions, reachable start state, typing, ok input), so their conclusions hold
+    of it: all output travelers are ok for the final type, each of the four statements is not
+    stuck on the stream in front of it, and the run does produce travelers (three: one per
+    `k`-edge of `gEx`, each selected back to the vertex marked `a`). -/
+example :
+    EdgesHaveTo gEx ∧ PresSide exProg ∧ MarkEnvOK {} ∧ HasType {} exProg τVa ∧
+    (∀ t ∈ [Traveler.seed], TravelerOk {} t) ∧ alongTyping StaticOK {} exProg ∧
+    (∀ t' ∈ evalFrom numOf gEx {} [Traveler.seed] exProg, TravelerOk τVa t') ∧
+    (∀ k, ∃ τk, HasType {} (exProg.take k) τk ∧
+      ∀ t' ∈ evalFrom numOf gEx {} [Traveler.seed] (exProg.take k), TravelerOk τk t') ∧
+    evalFromStrict numOf gEx {} [Traveler.seed] exProg = some (evalFrom numOf gEx {} [Traveler.seed] exProg) ∧
+    (evalFrom (fun _ => none) gEx {} [Traveler.seed] exProg).length = 3 := by
+  have hseed : ∀ t ∈ [Traveler.seed], TravelerOk {} t := fun t ht => by
+    simp only [List.mem_singleton] at ht; subst ht; exact seed_ok
+  have hty := hasType_of_typeCheck exProg_typed
+  refine ⟨gEx_edgesHaveTo, exProg_side, markEnv_initial, hty, hseed, exProg_static,
+    traversal_preservation numOf gEx gEx_edgesHaveTo exProg_side markEnv_initial hty hseed,
+    fun k => ?_,
+    traversal_progress numOf gEx markEnv_initial hty exProg_static
+      (fun t ht => (hseed t ht).present), ?_⟩
+  · obtain ⟨τk, h1, _, _, h4, _⟩ :=
+      every_prefix_typed numOf gEx gEx_edgesHaveTo exProg_side markEnv_initial hty hseed k
+    exact ⟨τk, h1, h4⟩
+  · rw [exProg_eval]; decide
+
+/-- the third statement (`outE`, k = 2) is not stuck on the stream `V().as("a")` produces -/
+example : ∃ τk τk', HasType {} (exProg.take 2) τk ∧ typeStep τk (.outE ["k"]) = .ok τk' ∧
+    evalStepStrict numOf gEx τk.last (.outE ["k"]) (evalFrom numOf gEx {} [Traveler.seed] (exProg.take 2)) ≠ none := by
+  obtain ⟨τk, τk', h1, h2, h3, _⟩ := no_stuck_step numOf gEx (ts := [Traveler.seed]) markEnv_initial
+    (hasType_of_typeCheck exProg_typed) exProg_static
+    (fun t ht => by simp only [List.mem_singleton] at ht; subst ht; exact seed_ok.present)
+    2 (.outE ["k"]) [.select ["a"]] rfl
+  exact ⟨τk, τk', h1, h2, h3⟩
+
+/-- `illtyped_rejected_before_rows` is not vacuous: `V().count().out()` is rejected although its
+    prefix `V().count()` is accepted and yields a row. -/
+example : typeCheck [.V [], .count, .out []] = .error .badLastType ∧
+    compileAndRun numOf gEx [.V [], .count, .out []] = .error .badLastType ∧
+    typeCheck [.V [], .count] = .ok ⟨.count, []⟩ :=
+  ⟨rfl, (illtyped_rejected_before_rows numOf gEx _ _ rfl).1, rfl⟩
+
 end Grip.Props.C01
